@@ -282,6 +282,7 @@ package soyhtml
 //@   at call io.WriteString#0 assert[raw-text-part-verbatim;C11] arg0 == s.wr && typeis(parts[rangeindex+1], soymsg.RawTextPart) && same(arg1, unbox(parts[rangeindex+1], soymsg.RawTextPart).Text)
 //@   at call (*MsgNode).Placeholder#0 assert[placeholder-looked-up-in-this-message-by-the-part's-name;C11] arg0 == msgNode && typeis(parts[rangeindex+1], soymsg.PlaceholderPart) && same(arg1, unbox(parts[rangeindex+1], soymsg.PlaceholderPart).Name)
 //@   at call (*MsgNode).Placeholder#0 after set ph = res
+//@   at call (*state).at#0 assert[after-a-placeholder-the-message-is-the-current-node-again;C19] arg0 == s && typeis(arg1, *ast.MsgNode) && unbox(arg1, *ast.MsgNode) == msgNode
 //@   at call (*state).walk#0 assert[the-found-placeholder's-body-is-rendered;C11] arg0 == s && ph != nil && arg1 == ph.Body
 //@   at call (*state).findPluralNode#0 assert[plural-node-looked-up-in-this-message-by-the-part's-variable;C11] arg1 == msgNode && typeis(parts[rangeindex+1], soymsg.PluralPart) && same(arg2, unbox(parts[rangeindex+1], soymsg.PluralPart).VarName)
 //@   at call (*state).findPluralNode#0 after set pl = res
